@@ -95,6 +95,27 @@ SENSITIVITY = {
               "\tvar _ = sort.Slice\n")]),
 }
 
+REAL_DEPS_EXPORT = '''package source
+
+import (
+	"github.com/pentops/j5/gen/j5/source/v1/source_j5pb"
+	"github.com/pentops/j5/internal/zzverif/simrt"
+	"google.golang.org/protobuf/types/descriptorpb"
+)
+
+// added to the scratch copy by /verif (never to /repo): exports the real DependencySet to the harness
+func init() {
+	simrt.RealDependencySet = func(files []*descriptorpb.FileDescriptorProto) (simrt.DependencySet, error) {
+		img := &source_j5pb.SourceImage{File: files}
+		for _, f := range files {
+			img.SourceFilenames = append(img.SourceFilenames, f.GetName())
+		}
+		return combineSourceImages([]*source_j5pb.SourceImage{img})
+	}
+}
+'''
+
+
 def build_scratch(prop, verbose=True, mutate=None):
     """Copy /repo's working tree, instrument it, build the harness. Returns (binary, report, scratchdir, build_seconds)."""
     cfg = PROPS[prop]
@@ -121,6 +142,12 @@ def build_scratch(prop, verbose=True, mutate=None):
     for src, dst in cfg["extra_pkgs"]:
         copy_go_files(os.path.join(VERIF, src), os.path.join(tree, dst))
     copy_go_files(os.path.join(VERIF, cfg["harness"]), os.path.join(tree, "cmd", cfg["cmd"]))
+    # the repository's own DependencySet (internal/source.imageFiles) is unexported: a small file added
+    # to the scratch copy hands its constructor to the harness (only if it still has that shape)
+    srcdeps = os.path.join(tree, "internal", "source", "deps.go")
+    if os.path.exists(srcdeps) and "func combineSourceImages(images []*source_j5pb.SourceImage) (*imageFiles, error)" in open(srcdeps).read():
+        with open(os.path.join(tree, "internal", "source", "zz_verif_export.go"), "w") as f:
+            f.write(REAL_DEPS_EXPORT)
     report_path = os.path.join(d, "rewrite_report.json")
     r = run([rewriter, "-dir", tree, "-report", report_path] + cfg["rewrite"], cwd=tree, env=goenv(), capture_output=True, text=True)
     if r.returncode != 0:
@@ -627,9 +654,10 @@ RULES = {
     "C10": "one evaluation = one simulated run: 2-5 tasks (real goroutines, exactly one running at a time, chosen by a seeded scheduler at AST-inserted yield points; the hand-off is invisible to the race detector) each performing 1-5 codec/reflector operations on one shared codec. Oracles: Go race detector report, panic, deadlock, no-progress, and every call's outcome must be one it has in a sequential execution of the same workload. Non-trivial = >=2 tasks and at least one context switch while some task was inside the schema build path. Distinct = distinct schedule signature (hash of the global (task, yield-site) event sequence and workload).",
 }
 COMPONENTS = {
-    "C14": dict(real_instrumented=["internal/j5s/protobuild", "internal/j5s/j5convert", "internal/j5s/sourcewalk", "internal/j5s/j5parse", "internal/j5s/protoprint", "internal/j5s/protoprint/optionreflect", "internal/bcl/**", "internal/protosrc", "lib/j5schema", "lib/j5reflect", "internal/codec"],
+    "C14": dict(real_instrumented=["internal/j5s/protobuild", "internal/j5s/j5convert", "internal/j5s/sourcewalk", "internal/j5s/j5parse", "internal/j5s/protoprint", "internal/j5s/protoprint/optionreflect", "internal/bcl/**", "internal/protosrc", "lib/j5schema", "lib/j5reflect", "internal/codec",
+                                   "internal/j5s/protobuild.fileReader over an in-memory fs.FS (20 % of executions)", "internal/source.imageFiles, the repository's DependencySet, its map ranges seeded (30 % of executions with dependencies)"],
                 real_uninstrumented=["github.com/bufbuild/protocompile (linker, options, parser)", "google.golang.org/protobuf", "github.com/iancoleman/strcase"],
-                simulated=["LocalFileSource (in-memory, seeded listing order, transient read errors)", "DependencySet (in-memory descriptors, seeded listing order)"]),
+                simulated=["LocalFileSource (in-memory, seeded listing order, transient read errors) in the other 80 %", "DependencySet (in-memory descriptors, seeded listing order) in the other 70 %"]),
     "C10": dict(real_instrumented=["lib/j5codec", "internal/codec", "lib/j5reflect", "lib/j5schema", "j5types/*"],
                 real_uninstrumented=["google.golang.org/protobuf", "encoding/json", "generated *.pb.go"],
                 simulated=["goroutine scheduler (seeded baton passing over real goroutines)"]),
